@@ -21,6 +21,7 @@ import (
 	"os"
 	"path/filepath"
 	"runtime"
+	"runtime/pprof"
 	"strconv"
 	"strings"
 
@@ -80,6 +81,12 @@ func childMain(args []string) int {
 	fail := func(what string, err error) int {
 		fmt.Fprintf(os.Stderr, "child: %s: %v\n", what, err)
 		return 3
+	}
+
+	if pf := os.Getenv("VERIF_C14_PROF"); pf != "" {
+		f, _ := os.Create(pf)
+		_ = pprof.StartCPUProfile(f)
+		defer pprof.StopCPUProfile()
 	}
 
 	if err := s.prepare(*dir); err != nil {
@@ -150,11 +157,14 @@ func configRules(gen, pad, chunk int) []string {
 	if pad < 0 {
 		return rules
 	}
-	full := strings.Repeat("a", chunk)
+	// The filler differs between generations so that a mix of two versions
+	// is not byte-equal to either.
+	fill := string(rune('a' + gen))
+	full := strings.Repeat(fill, chunk)
 	for i := 0; i < pad/chunk; i++ {
 		rules = append(rules, full)
 	}
-	return append(rules, strings.Repeat("a", pad%chunk+1))
+	return append(rules, strings.Repeat(fill, pad%chunk+1))
 }
 
 func (s *configSaver) calibrate(size int) (string, int, error) {
@@ -208,21 +218,25 @@ func (s *leaseSaver) prepare(dir string) (err error) {
 func (s *leaseSaver) dest() string { return s.vs.DBPath() }
 
 func (s *leaseSaver) calibrate(size int) (string, int, error) {
-	s.vs.SetLeases("g0", 1, 0)
-	one := s.vs.EncodedSize()
-	s.vs.SetLeases("g0", 2, 0)
-	per := s.vs.EncodedSize() - one
-	n := 1
-	if size > one {
-		n = 1 + (size-one)/per
-	}
-	for ; n >= 1; n-- {
+	sizeOf := func(n int) int {
 		s.vs.SetLeases("g0", n, 0)
-		if got := s.vs.EncodedSize(); got <= size {
-			return fmt.Sprintf("%d:%d", n, size-got), size, nil
+		return s.vs.EncodedSize()
+	}
+	one := sizeOf(1)
+	if size <= one {
+		return "1:0", one, nil
+	}
+	// The largest n whose document fits; the rest is host-name padding.
+	lo, hi := 1, size/64+2
+	for lo < hi {
+		mid := (lo + hi + 1) / 2
+		if sizeOf(mid) <= size {
+			lo = mid
+		} else {
+			hi = mid - 1
 		}
 	}
-	return "1:0", one, nil
+	return fmt.Sprintf("%d:%d", lo, size-sizeOf(lo)), size, nil
 }
 
 func (s *leaseSaver) save(gen, _ int, calib string) error {
@@ -295,6 +309,7 @@ func (s *filterSaver) dest() string { return s.path }
 // size 0 means "generation 1 has no rules" and size 1 cannot exist.
 func filterBody(gen, size int) []byte {
 	tag := fmt.Sprintf("||g%d.c14.example^", gen)
+	fill := string(rune('a' + gen)) // differs between generations
 	var b bytes.Buffer
 	b.WriteString("! C14 list, generation " + strconv.Itoa(gen) + "\n")
 	switch {
@@ -307,12 +322,12 @@ func filterBody(gen, size int) []byte {
 		if size < 2 {
 			size = 2
 		}
-		b.WriteString(strconv.Itoa(gen) + strings.Repeat("a", size-2) + "\n")
+		b.WriteString(strconv.Itoa(gen) + strings.Repeat(fill, size-2) + "\n")
 		return b.Bytes()
 	}
 	rem := size - len(tag) - 1
 	if rem == 1 {
-		tag += "a"
+		tag += fill
 		rem = 0
 	}
 	b.WriteString(tag + "\n")
@@ -324,7 +339,7 @@ func filterBody(gen, size int) []byte {
 		if rem-n == 1 {
 			n--
 		}
-		b.WriteString(strings.Repeat("a", n-1) + "\n")
+		b.WriteString(strings.Repeat(fill, n-1) + "\n")
 		rem -= n
 	}
 	return b.Bytes()
